@@ -1,0 +1,15 @@
+//go:build verif
+
+package query
+
+import "github.com/mithrandie/go-text"
+
+// VerifJsonLineBreak runs the line-break detector of the JSON / JSON Lines loaders over the given chunks, as if
+// they were the successive reads of one file. Only available with the build tag "verif".
+func VerifJsonLineBreak(chunks [][]byte) text.LineBreak {
+	d := &jsonLineBreakDetector{}
+	for _, c := range chunks {
+		d.scan(c)
+	}
+	return d.LineBreak()
+}
